@@ -55,7 +55,7 @@ func runReplays(prop, tier, work, replayDir string, byFn map[string]*merged, ord
 		for i := range m.Violations {
 			v := &m.Violations[i]
 			final := filepath.Join(replayDir, fmt.Sprintf("%s-%s-%d.json", prop, fn, i))
-			rf := replayFile{Harness: fn, Tier: tier, Script: v.Script, Kind: "violation", Label: v.Label, Known: v.Known, Inputs: v.Inputs, Events: v.Events,
+			rf := replayFile{Harness: fn, Tier: effTier(tier, m.H, prop), Script: v.Script, Kind: "violation", Label: v.Label, Known: v.Known, Inputs: v.Inputs, Events: v.Events,
 				Pin: &PinFile{Values: v.Pinned, FValues: v.PinnedF, Chooses: v.Chooses}}
 			it := &nativeItem{fn: fn, viol: v, final: final}
 			if m.H.Native && v.Script != nil {
@@ -102,7 +102,7 @@ func runReplays(prop, tier, work, replayDir string, byFn map[string]*merged, ord
 			os.MkdirAll(dir, 0o755)
 			for i, it := range items {
 				it.file = filepath.Join(dir, fmt.Sprintf("r%04d.json", i))
-				rf := replayFile{Harness: it.fn, Tier: tier}
+				rf := replayFile{Harness: it.fn, Tier: effTier(tier, byFn[it.fn].H, prop)}
 				if it.viol != nil {
 					rf.Script = it.viol.Script
 				} else {
@@ -164,7 +164,7 @@ func runReplays(prop, tier, work, replayDir string, byFn map[string]*merged, ord
 		var jobs []Job
 		for _, it := range interp {
 			m := byFn[it.fn]
-			jobs = append(jobs, Job{Pkg: m.H.Pkg, Fn: it.fn, ShardN: 1, MaxSteps: m.H.MaxSteps, Thorough: tier == "thorough", Pin: &PinFile{Values: it.viol.Pinned, FValues: it.viol.PinnedF, Chooses: it.viol.Chooses}})
+			jobs = append(jobs, Job{Pkg: m.H.Pkg, Fn: it.fn, ShardN: 1, MaxSteps: m.H.MaxSteps, Thorough: effTier(tier, m.H, prop) == "thorough", Pin: &PinFile{Values: it.viol.Pinned, FValues: it.viol.PinnedF, Chooses: it.viol.Chooses}})
 		}
 		rs := runJobs(l, jobs, 8, nil)
 		for i, it := range interp {
@@ -359,6 +359,15 @@ func validateSQLModel(tier string, seed int, work string) (string, error) {
 		}
 	}
 	return "", fmt.Errorf("%v: %s", err, tail(string(out), 600))
+}
+
+// effTier: the tier whose bounds a harness actually ran with in a check of prop (tonly= harnesses run their quick
+// bounds in thorough checks of their secondary properties); replays must use the same bounds.
+func effTier(tier string, h Harness, prop string) string {
+	if tier == "thorough" && !thoroughBoundsFor(h, prop) {
+		return "quick"
+	}
+	return tier
 }
 
 func harnessBodyContains(src, fn, needle string) bool {
